@@ -61,6 +61,8 @@ class Line(object):
         self.send_fault = False
         self.eof = False                 # peer closed the connection
         self.reconnects = 0
+        self.refuse = 0                  # how many of the next connection attempts are refused
+        self.refused = 0
         self.read_sizes = []             # sizes the client asked of the transport (logical reads)
         self.conn = 0                    # id of the current connection; a closed one stays dead
         self.dead = set()
@@ -270,13 +272,24 @@ class Patched(object):
         csync.select = FakeSelect(self.clock)
         line = self.line
 
+        def refused():
+            if line.refuse > 0:
+                line.refuse -= 1
+                line.refused += 1
+                return True
+            return False
+
         def create_connection(addr, timeout=None, source_address=None):
+            if refused():
+                raise ConnectionRefusedError('connection refused (injected)')
             line.reconnects += 1
             line.rx = []
             line.conn += 1
             return FakeSocket(line)
 
         def serial_ctor(**kw):
+            if refused():
+                raise csync.serial.SerialException('could not open port (injected)')
             line.reconnects += 1
             line.rx = []
             return FakeSerial(line, kw.get('timeout', 3))
